@@ -45,7 +45,7 @@ def main():
         needs = re.sub(r"\s+", " ", meta.get("needs", ""))[:220]
         line = f"| {name} | {meta.get('property')} | {summ} | {needs} | {outcome(first)}"
         if last is not None and last is not first:
-            line += f" → after strengthening: {outcome(last)}"
+            line += f" → latest run: {outcome(last)}"
         line += f" | {notes.get(name, '')} |"
         rows.append(line)
     out = ["# Seeded property-breaking changes",
